@@ -19,11 +19,12 @@ EXTRACT = "theories/Extract/ExtractGrammar.vo"
 # deviation bits of Grammar/Deviations.v
 BITS = {
     1: "kf-c03-id-runs", 2: "kf-c03-dollar-ids", 3: "kf-c03-group-rule-commit", 4: "kf-c03-bytes-no-escapes",
-    5: "kf-c03-bsqual-case", 6: "kf-c03-cborseq", 7: "kf-c03-radix-float", 8: "kf-c03-bytes-member-key",
+    5: "kf-c03-bsqual-case", 6: "kf-c03-ctlop-prefix", 7: "kf-c03-radix-float", 8: "kf-c03-bytes-member-key",
     9: "kf-c03-implicit-skip", 10: "kf-c03-tag-forms", 11: "kf-c03-control-chars", 12: "kf-c03-escape-scalars",
+    13: "kf-c03-paren-entry-commit",
 }
-SPEC = 1                      # bit 0: the type1 note (interpretive, always on)
-ALL = (1 << 13) - 1
+SPEC = 0                      # mask 0: the specification (RFC + documented leniencies, names as maximal tokens)
+ALL = (1 << 14) - 2
 
 # bridge rejections that are about literal VALUES or duplicate definitions (properties C07 / C12), not about the grammar
 SEMANTIC_OK = ("Invalid unsigned integer", "Invalid integer", "Invalid float", "Invalid hexfloat", "Invalid base16 encoding",
@@ -665,12 +666,12 @@ def run(tier, seed):
     exprs = []
     for t in sl:
         cps = common.coq_list([ord(ch) for ch in t])
-        exprs += ["cddl_tree " + cps, "cddl_shape " + cps, "variant_verdict 1 " + cps]
+        exprs += ["cddl_tree " + cps, "cddl_shape " + cps, "variant_verdict 0 " + cps]
     vm = common.vm_compute_slice(PROP, "From Cddl Require Import Grammar.C03Model.", exprs)
     orc_sl = []
     for t in sl:
         orc_sl += [common.run_tool(orc, ["T\t" + hx(t)], shards=1)[0], common.run_tool(orc, ["H\t" + hx(t)], shards=1)[0],
-                   common.run_tool(orc, ["V\t1\t" + hx(t)], shards=1)[0]]
+                   common.run_tool(orc, ["V\t0\t" + hx(t)], shards=1)[0]]
     vm_bad = [(e, x, y) for e, x, y in zip(exprs, vm, orc_sl) if x != y]
     if vm_bad:
         res.violation("extracted oracle and vm_compute disagree on %s: %s vs %s" % vm_bad[0], {"kind": "extraction", "case": list(vm_bad[0])}, no_input=True)
@@ -717,12 +718,12 @@ def replay(path):
     print("model tree :", common.run_tool(orc, ["T\t" + h])[0])
     print("impl ast   :", b[1] if len(b) > 1 else "")
     print("model shape:", common.run_tool(orc, ["H\t" + h])[0])
-    print("spec (RFC 8610/9682 + leniencies + type1 note) derives:", common.run_tool(orc, ["V\t1\t" + h])[0])
+    print("spec (RFC 8610/9682 + leniencies + type1 note) derives:", common.run_tool(orc, ["V\t0\t" + h])[0])
     print("RFC rules only derive:", common.run_tool(orc, ["F\t" + h])[0])
     print("all known deviations switched on:", common.run_tool(orc, ["V\t%d\t%s" % (ALL, h)])[0])
     for k, n in BITS.items():
         print("  with deviation %-28s:" % n, common.run_tool(orc, ["V\t%d\t%s" % (SPEC | (1 << k), h)])[0])
     cps = common.coq_list([ord(ch) for ch in t])
-    vm = common.vm_compute_slice(PROP, "From Cddl Require Import Grammar.C03Model.", ["cddl_tree " + cps, "cddl_shape " + cps, "variant_verdict 1 " + cps])
+    vm = common.vm_compute_slice(PROP, "From Cddl Require Import Grammar.C03Model.", ["cddl_tree " + cps, "cddl_shape " + cps, "variant_verdict 0 " + cps])
     print("vm_compute :", vm)
     return 0
